@@ -123,8 +123,8 @@ def run_shards(prop, cfg, seed, n, tier, tag, release=False):
         req = os.path.join(d, "%s-%d.req" % (tag, i))
         out = os.path.join(d, "%s-%d.out" % (tag, i))
         key = cfg.get("harness_key", prop)
-        cmd = "%s gen %s %d %d %s > %s && %s < %s > %s" % (
-            harness_bin(release), key, seed * 1000 + i, cnt, tier, req, DRIVER, req, out)
+        cmd = "VERIF_OUT=%s %s gen %s %d %d %s > /dev/null && %s < %s > %s" % (
+            req, harness_bin(release), key, seed * 1000 + i, cnt, tier, DRIVER, req, out)
         procs.append((subprocess.Popen(cmd, shell=True, env=ENV, stderr=subprocess.PIPE, text=True), req, out, seed * 1000 + i))
     recs = []
     deadline = time.time() + (3600 if tier == "thorough" else 900)
@@ -147,7 +147,7 @@ def run_requests(prop, requests, tag, release=False):
     with open(inp, "w") as f:
         for r in requests:
             f.write(r + "\n")
-    cmd = "%s exec < %s > %s && %s < %s > %s" % (harness_bin(release), inp, req, DRIVER, req, out)
+    cmd = "VERIF_OUT=%s %s exec < %s > /dev/null && %s < %s > %s" % (req, harness_bin(release), inp, DRIVER, req, out)
     try:
         p = subprocess.run(cmd, shell=True, env=ENV, stderr=subprocess.PIPE, text=True, timeout=900)
         rc, err = p.returncode, p.stderr
@@ -390,6 +390,8 @@ def check(prop, tier, seed):
             "traces_validated_against_impl": len(recs) - len(disagree) - len(internal),
             "disagreements_checked": len(disagree),
             "holds_failures_on_implementation": len(fails),
+            "predicate_evaluated_on": sum(1 for r in recs if r["verdict"] == "ok"),
+            "outside_the_property_quantifier": sum(1 for r in recs if r["verdict"].startswith("skip:")),
             "known_findings_reproduced": sorted(known_hit.keys()),
             "extended_search_requests": searched,
             "corpus_requests": len(corpus_requests(prop)),
